@@ -237,10 +237,11 @@ def s3(tier):
     dd = [
         ([W, within('V', ['W', 'A'], fmw, same)], 'V'),
         ([W, window('N', ['W'], fmw, 2, same, kind='transition', start=1)], 'N'),
+        ([W, window('N', ['W'], fmw, 2, same, kind='window', start=None)], 'N'),
     ]
     TA = window('TA', ['A'], fm0, 2, same, kind='transition', start=1)
     fmt = dict(fm0, TA=TA)
-    dd.append(([TA, window('N', ['TA'], fmt, 2, same, kind='transition', start=None)], 'N'))
+    dd.append(([TA, window('N', ['TA'], fmt, 2, same, kind='window', start=None)], 'N'))
     dd.append(([TA, within('V', ['TA', 'B'], fmt, same)], 'V'))
     cases = [([w], 'N') for w in wins] + dd
     for extra, top in cases:
